@@ -2,7 +2,9 @@
 //!
 //! Re-exports of crate-private items that an external property-based test harness needs to drive
 //! directly, plus a thread-local "schedule seed" that replaces the thread RNG in the two places where
-//! the library draws a random schedule (SVC visiting order, k-means++ seeding).
+//! the library draws a random schedule (SVC visiting order, k-means++ seeding), and a thread-local
+//! record of the last first-order optimiser run (iterations used, iteration limit), which estimators
+//! such as `LogisticRegression` do not expose.
 use std::cell::Cell;
 
 use rand::rngs::StdRng;
@@ -21,6 +23,20 @@ pub use crate::optimization::{FunctionOrder, DF, F};
 
 thread_local! {
     static SCHEDULE_SEED: Cell<Option<u64>> = Cell::new(None);
+}
+
+thread_local! {
+    static LAST_OPTIMIZER_RUN: Cell<Option<(usize, usize)>> = Cell::new(None);
+}
+
+/// Called by `LBFGS::optimize` when it returns: iterations used and its iteration limit.
+pub(crate) fn record_optimizer_run(iterations: usize, max_iter: usize) {
+    LAST_OPTIMIZER_RUN.with(|s| s.set(Some((iterations, max_iter))));
+}
+
+/// Takes (and clears) the record of the last optimiser run on the current thread.
+pub fn take_last_optimizer_run() -> Option<(usize, usize)> {
+    LAST_OPTIMIZER_RUN.with(|s| s.replace(None))
 }
 
 /// Sets (or clears) the seed used by `schedule_rng` on the current thread.
